@@ -144,7 +144,7 @@ Section LoadProofs.
       + pose proof (parse_csize_i32 _ _ _ Ep) as Hi32. apply parse_consumes_given in Ep.
         assert (Hlen : Z.of_nat (length (slice f off window)) = window).
         { apply slice_length; unfold window, avail; lia. }
-        destruct (negb (expected_type_ok k (ph_type h))); [left; eauto|].
+        destruct (type_verdict k (ph_type h)); [left; eauto|].
         destruct ((ph_csize h <? 0) || (ph_csize h >? avail - Z.of_nat hs)) eqn:Ec; [left; eauto|].
         apply orb_false_iff in Ec. destruct Ec as [Ec1 Ec2]. apply Z.ltb_ge in Ec1.
         rewrite Z.gtb_ltb in Ec2. apply Z.ltb_ge in Ec2.
@@ -170,7 +170,7 @@ Section LoadProofs.
       destruct (parse_hdr (slice f off hr)) as [h hs| c |] eqn:Ep; [|left; eauto|left; eauto].
       apply parse_consumes_given in Ep.
       assert (Hlen : Z.of_nat (length (slice f off hr)) = hr) by (apply slice_length; unfold hr; lia).
-      destruct (negb (expected_type_ok k (ph_type h))); [left; eauto|].
+      destruct (type_verdict k (ph_type h)); [left; eauto|].
       destruct (ph_csize h <? 0) eqn:Ec; [left; eauto|]. apply Z.ltb_ge in Ec.
       set (dr := Z.max 0 (Z.min (ph_csize h) (n - (off + Z.of_nat hs)))).
       destruct (negb (dr =? ph_csize h)) eqn:Ed; [left; eauto|].
